@@ -14,7 +14,7 @@ theorem PInv.openDb {d : Chan} (hP : d.PInv) {app mb : String} (side : String) (
     (hc : ¬ d.Clash app mb) : (d.openDb app mb side t).PInv := by
   have hid : ∀ mb', d.HasId mb' → (d.openDb app mb side t).HasId mb' := by
     rintro mb' ⟨m, hm, hi⟩
-    exact ((openDb_hasMb_iff d app mb side t m.app mb').2 (Or.inl ⟨m, hm, rfl, hi⟩)).hasId
+    exact ((openDb_hasBox_iff d app mb side t m.app mb').2 (Or.inl ⟨m, hm, rfl, hi⟩)).hasId
   refine ⟨hP.npIds, hP.npKey, hP.bounded, ?_, ?_, hP.nsFk, hP.nsKey, ?_, ?_, ?_⟩
   · -- mailbox ids
     unfold Chan.openDb
@@ -38,7 +38,7 @@ theorem PInv.openDb {d : Chan} (hP : d.PInv) {app mb : String} (side : String) (
       refine ⟨⟨a, ha, hid', fun happ => hnh ⟨a, ha, happ, hid'⟩⟩, hnh⟩
   · intro n hn
     obtain ⟨m, hm, h1, h2⟩ := hP.npMb n hn
-    obtain ⟨m', hm', ha, hi⟩ := (openDb_hasMb_iff d app mb side t n.app n.mailbox).2 (Or.inl ⟨m, hm, h2, h1⟩)
+    obtain ⟨m', hm', ha, hi⟩ := (openDb_hasBox_iff d app mb side t n.app n.mailbox).2 (Or.inl ⟨m, hm, h2, h1⟩)
     exact ⟨m', hm', hi, ha⟩
   · intro r hr
     cases hs : d.findMbSide mb side with
@@ -52,7 +52,7 @@ theorem PInv.openDb {d : Chan} (hP : d.PInv) {app mb : String} (side : String) (
       rcases hr with hr | rfl
       · obtain ⟨m, hm, hi⟩ := hP.msFk r hr
         exact hid _ ⟨m, hm, hi⟩
-      · exact (openDb_hasMb d app mb side t).hasId
+      · exact (openDb_hasBox d app mb side t).hasId
   · cases hs : d.findMbSide mb side with
     | some r0 => rw [openDb_mbSides_some d app mb side t hs]; exact hP.msKey
     | none =>
@@ -64,7 +64,7 @@ theorem PInv.openDb {d : Chan} (hP : d.PInv) {app mb : String} (side : String) (
       exact findMbSide_eq_none.1 hs a ha
   · intro r hr
     obtain ⟨m, hm, h1, h2⟩ := hP.msgFk r hr
-    obtain ⟨m', hm', ha, hi⟩ := (openDb_hasMb_iff d app mb side t r.app r.mailbox).2 (Or.inl ⟨m, hm, h2, h1⟩)
+    obtain ⟨m', hm', ha, hi⟩ := (openDb_hasBox_iff d app mb side t r.app r.mailbox).2 (Or.inl ⟨m, hm, h2, h1⟩)
     exact ⟨m', hm', hi, ha⟩
 
 /-- the side row of (mb, side) after `openDb`: the old one if there was one, else the new one -/
@@ -74,7 +74,7 @@ theorem openDb_findMbSide_ne_none (d : Chan) (app mb side : String) (t : Time) :
   have := findMbSide_eq_none.1 h
   cases hs : d.findMbSide mb side with
   | some r0 =>
-    obtain ⟨hr, h1, h2⟩ := findMbSide_some hs
+    obtain ⟨hr, h1, h2⟩ := findMbSide_some_mbx hs
     exact this r0 (by rw [openDb_mbSides_some d app mb side t hs]; exact hr) ⟨h1, h2⟩
   | none =>
     exact this ⟨mb, true, side, t, none⟩ (by rw [openDb_mbSides_none d app mb side t hs]; simp) ⟨rfl, rfl⟩
@@ -92,8 +92,9 @@ theorem dropMailbox_openDb (d : Chan) (app mb side : String) (t : Time) :
       apply filter_map_of_fix
       · intro x; split <;> rfl
       · intro x hx
-        have : ¬ (x.app = app ∧ x.id = mb) := by simpa using hx
-        simp [this]
+        have : ¬ (x.app = app ∧ x.id = mb) := by
+          simp only [decide_eq_true_eq] at hx; exact hx
+        rw [if_neg this]
     | none => simp
   have h2 : (d.openDb app mb side t).mbSides.filter (fun r => ¬ r.mailbox = mb) =
       d.mbSides.filter (fun r => ¬ r.mailbox = mb) := by
@@ -162,7 +163,7 @@ theorem dropMailbox_eq_self {d : Chan} (hP : d.PInv) {app mb : String} (h : ¬ d
 
 /-- what `Mailbox.close(side, mood)` does to the channel database -/
 def closeDb (d : Chan) (app mb side : String) (mood : Option String) : Chan :=
-  if d.HasMb app mb ∧ d.findMbSide mb side ≠ none then
+  if d.HasBox app mb ∧ d.findMbSide mb side ≠ none then
     (if d.OtherOpen mb side then d.closeSide mb side mood else d.dropMailbox app mb)
   else d
 
@@ -262,9 +263,9 @@ theorem close_tail {s2 : Sys} (hP : s2.db.PInv) (hN : s2.db.NpHasSide) (hS : s2.
       (∃ commits, (∀ e ∈ commits, IsCommit e) ∧ s'.out = s2.out ++ commits ++ [.frame c .closed true]) ∧
       s'.Synced ∧ s'.cfg = s2.cfg ∧ s'.rebooted = s2.rebooted ∧
       s'.db = s2.db.closeDb app tgt side mood ∧
-      (¬ (s2.db.HasMb app tgt ∧ s2.db.findMbSide tgt side ≠ none ∧ ¬ s2.db.OtherOpen tgt side) →
+      (¬ (s2.db.HasBox app tgt ∧ s2.db.findMbSide tgt side ≠ none ∧ ¬ s2.db.OtherOpen tgt side) →
         s'.conns = (s2.updConn c (fun y => { y with mailbox := none })).conns ∧ s'.udb = s2.udb) ∧
-      (s2.db.HasMb app tgt → s2.db.findMbSide tgt side ≠ none → ¬ s2.db.OtherOpen tgt side →
+      (s2.db.HasBox app tgt → s2.db.findMbSide tgt side ≠ none → ¬ s2.db.OtherOpen tgt side →
         s'.conns = (({ s2 with conns := stoppedConns s2.conns app tgt } : Sys).updConn c
           (fun y => { y with mailbox := none })).conns ∧ CloseUsage s2 s' app tgt) := by
   cases e : s2.mailboxClose app tgt side mood t with
@@ -287,7 +288,7 @@ theorem close_tail {s2 : Sys} (hP : s2.db.PInv) (hN : s2.db.NpHasSide) (hS : s2.
     · exact ⟨hs3.1, hs3.2⟩
     · show s3.db = _
       unfold Chan.closeDb
-      by_cases hh : s2.db.HasMb app tgt ∧ s2.db.findMbSide tgt side ≠ none
+      by_cases hh : s2.db.HasBox app tgt ∧ s2.db.findMbSide tgt side ≠ none
       · rw [if_pos hh]
         obtain ⟨_, h1, h2⟩ := hdo hh.1 hh.2
         by_cases ho : s2.db.OtherOpen tgt side
@@ -295,7 +296,7 @@ theorem close_tail {s2 : Sys} (hP : s2.db.PInv) (hN : s2.db.NpHasSide) (hS : s2.
         · rw [if_neg ho]; exact (h2 ho).1
       · rw [if_neg hh]
         rw [hnoop (by
-          by_cases h1 : s2.db.HasMb app tgt
+          by_cases h1 : s2.db.HasBox app tgt
           · right
             by_cases h2 : s2.db.findMbSide tgt side = none
             · exact h2
@@ -303,7 +304,7 @@ theorem close_tail {s2 : Sys} (hP : s2.db.PInv) (hN : s2.db.NpHasSide) (hS : s2.
           · exact Or.inl h1)]
     · intro hno
       show (s3.updConn c _).conns = _ ∧ s3.udb = _
-      by_cases hh : s2.db.HasMb app tgt ∧ s2.db.findMbSide tgt side ≠ none
+      by_cases hh : s2.db.HasBox app tgt ∧ s2.db.findMbSide tgt side ≠ none
       · obtain ⟨_, h1, _⟩ := hdo hh.1 hh.2
         have ho : s2.db.OtherOpen tgt side := by
           by_cases ho : s2.db.OtherOpen tgt side
@@ -314,7 +315,7 @@ theorem close_tail {s2 : Sys} (hP : s2.db.PInv) (hN : s2.db.NpHasSide) (hS : s2.
         show (s3.updConn c _).conns = _
         simp [updConn, hr.conns]
       · rw [hnoop (by
-          by_cases h1 : s2.db.HasMb app tgt
+          by_cases h1 : s2.db.HasBox app tgt
           · right
             by_cases h2 : s2.db.findMbSide tgt side = none
             · exact h2
@@ -427,11 +428,11 @@ theorem close_step {s : Sys} (hP : s.db.PInv) (hN : s.db.NpHasSide) (hS : s.Sync
       (s.step (.recv c t id (.close m mood))).Synced ∧
       (s.step (.recv c t id (.close m mood))).cfg = s.cfg ∧
       (s.step (.recv c t id (.close m mood))).rebooted = s.rebooted ∧
-      (¬ ((closePre s x app tgt t).HasMb app tgt ∧ (closePre s x app tgt t).findMbSide tgt (x.side.getD "") ≠ none ∧
+      (¬ ((closePre s x app tgt t).HasBox app tgt ∧ (closePre s x app tgt t).findMbSide tgt (x.side.getD "") ≠ none ∧
           ¬ (closePre s x app tgt t).OtherOpen tgt (x.side.getD "")) →
         (s.step (.recv c t id (.close m mood))).conns = closeConns s.conns c ∧
         (s.step (.recv c t id (.close m mood))).udb = s.udb) ∧
-      ((closePre s x app tgt t).HasMb app tgt → (closePre s x app tgt t).findMbSide tgt (x.side.getD "") ≠ none →
+      ((closePre s x app tgt t).HasBox app tgt → (closePre s x app tgt t).findMbSide tgt (x.side.getD "") ≠ none →
           ¬ (closePre s x app tgt t).OtherOpen tgt (x.side.getD "") →
         (s.step (.recv c t id (.close m mood))).conns = closeConnsDel s.conns c app tgt ∧
         CloseUsage s (s.step (.recv c t id (.close m mood))) app tgt)) := by
@@ -465,7 +466,7 @@ theorem close_step {s : Sys} (hP : s.db.PInv) (hN : s.db.NpHasSide) (hS : s.Sync
             rw [hAdb, hAdisk, hAudb, hAudisk]; exact hS)
         x.id app tgt (x.side.getD "") mood t
     rw [hs']
-    simp only [updConn_db, hAdb, updConn_out, hAout, updConn_cfg, hAcfg, updConn_rebooted, hAreb,
+    simp only [updConn_db, hAdb, updConn_out, hAout, updConn_cfg, hAcfg, updConn_rebooted_mbx, hAreb,
       updConn_udb, hAudb] at hout hcfg hreb hdb hsurv hdel
     refine ⟨⟨commits, hc, by rw [hout, ← hid]; simp⟩, hdb, hsync, hcfg, hreb, ?_, ?_⟩
     · intro hno
@@ -552,7 +553,7 @@ theorem close_step {s : Sys} (hP : s.db.PInv) (hN : s.db.NpHasSide) (hS : s.Sync
             (by show s1.db.NpHasSide; rw [hdb]; exact hN)
             hsync1 x.id app mb (x.side.getD "") mood t
         rw [hs']
-        simp only [updConn_db, hdb, updConn_out, hout1, hAout, updConn_cfg, hrest.cfg, hAcfg, updConn_rebooted,
+        simp only [updConn_db, hdb, updConn_out, hout1, hAout, updConn_cfg, hrest.cfg, hAcfg, updConn_rebooted_mbx,
           hrest.rebooted, hAreb, updConn_udb, hrest.udb, hAudb] at hout hcfg hreb hdb' hsurv hdel
         refine ⟨⟨commits1 ++ commits, ?_, by rw [hout, ← hid]; simp⟩, hdb', hsync, hcfg, hreb, ?_, ?_⟩
         · intro e he
